@@ -13,13 +13,13 @@ def build(kind, case, cfg):
     vo = zoo.values_orders_arg(case); X, y = case['X'], case['y']
     if kind == 'Discretizer':
         o = Discretizer(quantitative_features=list(case['quantitative']), qualitative_features=list(case['qualitative']), ordinal_features=list(case['ordinal']),
-                        values_orders=vo, min_freq=cfg['min_freq'], copy=True, verbose=False)
+                        values_orders=vo, min_freq=cfg['min_freq'], copy=True, verbose=False, **zoo.extra_kwargs(cfg))
         o.fit(X, y); return o
     if kind == 'QuantitativeDiscretizer':
-        o = QuantitativeDiscretizer(quantitative_features=list(case['quantitative']), min_freq=cfg['min_freq'], copy=True, verbose=False)
+        o = QuantitativeDiscretizer(quantitative_features=list(case['quantitative']), min_freq=cfg['min_freq'], copy=True, verbose=False, **{k: v for k, v in zoo.extra_kwargs(cfg).items() if k == 'str_nan'})
         o.fit(X, y); return o
     if kind == 'QualitativeDiscretizer':
-        o = QualitativeDiscretizer(qualitative_features=list(case['qualitative']), ordinal_features=list(case['ordinal']), values_orders=vo, min_freq=cfg['min_freq'], copy=True, verbose=False)
+        o = QualitativeDiscretizer(qualitative_features=list(case['qualitative']), ordinal_features=list(case['ordinal']), values_orders=vo, min_freq=cfg['min_freq'], copy=True, verbose=False, **zoo.extra_kwargs(cfg))
         o.fit(X, y); return o
     if kind in ('BinaryCarver', 'ContinuousCarver'):
         return zoo.fit_carver(case, cfg)
@@ -27,7 +27,7 @@ def build(kind, case, cfg):
         from AutoCarver.carvers.multiclass_carver import MulticlassCarver
         o = MulticlassCarver(sort_by=cfg.get('sort_by', 'tschuprowt'), min_freq=cfg['min_freq'], quantitative_features=list(case['quantitative']), qualitative_features=list(case['qualitative']),
                              ordinal_features=list(case['ordinal']), values_orders=vo, max_n_mod=cfg['max_n_mod'], output_dtype=cfg.get('output_dtype', 'float'), dropna=cfg.get('dropna', True),
-                             copy=True, verbose=False)
+                             copy=True, verbose=False, **zoo.extra_kwargs(cfg))
         if case['X_dev'] is not None: o.fit(X, y, X_dev=case['X_dev'], y_dev=case['y_dev'])
         else: o.fit(X, y)
         return o
@@ -60,9 +60,10 @@ def object_specs(rng, n_random, tier, kinds=None, with_tables=True):
     from rtc.c01_carver import table_cases
     specs = []
     kinds = kinds or ['Discretizer', 'QuantitativeDiscretizer', 'QualitativeDiscretizer', 'BinaryCarver', 'ContinuousCarver']
-    for _ in range(n_random):
-        case = zoo.random_case(rng)
+    for i in range(n_random):
+        case = zoo.random_case(rng, degenerate=(i % 4 == 3), variants=True)
         cfg = dict(rng.choice(zoo.CONFIGS)); cfg['min_freq_mod'] = None
+        if i % 6 == 5: cfg['str_nan'] = 'MISSING'; cfg['str_default'] = 'AUTRES'
         ks = [k for k in kinds if applicable(k, case)]
         specs.append((rng.choice(ks), case, cfg))
     if 'MulticlassCarver' in kinds:
